@@ -278,6 +278,13 @@ func checkC15(c *Check) {
 	// report (the wait loop would then wait for a child that is gone: ECHILD, Runner Error) — the tables of C09.1
 	importObs(c, "C09", "C09.1/classifier-table", "6/main-end-ends-run", func(o Obligation) bool { return strings.HasPrefix(o.Key, "ptracer.") })
 	c.Expect("6/main-end-ends-run", 69)
+	// every stop the tracer has to answer is reported to it: it waits on the process group of the run, so no traced
+	// process may leave that group (its seccomp stop would never be collected and the run would hang until cancelled)
+	checkConfigTables(c, "7/no-group-escape", "group")
+	// "the tracee is gone" is reported by the primitives only when the kernel said so: the register write-back of the
+	// skip helper hands on the error it got (C03.2) — a failure relabelled ESRCH would be taken for a vanished tracee
+	// and the stop never resumed
+	importObs(c, "C03", "C03.2/skip-syscall", "8/skip-error-honest", nil)
 }
 
 func describeInstr(in ssa.Instruction) string {
